@@ -5,7 +5,7 @@ import CotengraVerif.Generated.FactsC16
 # C16 — closed obligations over the source-derived fact tables
 
 `Generated/FactsC16.lean` is rewritten from the AST of `cotengra/pathfinders/path_basic.py`,
-`cotengra/reusable.py` and `cotengra/presets.py` by `harness/c16.py: gen_facts` on every run.
+`cotengra/reusable.py`, `cotengra/presets.py` and `cotengra/hyperoptimizers/hyper.py` by `harness/c16.py: gen_facts` on every run.
 The obligations are what the model and the invariant of `C16.per_thread_isolation` take from the
 source: which shared attributes the query path writes, and under which key.
 -/
@@ -29,5 +29,13 @@ theorem shared_stores_keyed_by_thread :
     (∀ s ∈ reusableStores, s ∈ ["self._cache[h]", "self._suboptimizers[<ident>]"]) ∧
       lastOptReadsIdent = true ∧
       (∀ p ∈ autoStores, p.1 = "_hyperoptimizers_by_thread" ∧ p.2 ≠ "") := by decide
+
+/-- **futures_fresh_per_search** — the premise `freshList = true` of `pool_isolation`
+    (Props/C16Pool.lean), read off hyper.py: `_gen_results_parallel` binds `self._futures` to a
+    fresh empty container before it uses it, no class-level mutable container of `HyperOptimizer`
+    (or a subclass) is mutated in place through `self`, and `_futures` is reached through `self`
+    only — so the list of in-flight trials is one object per search. -/
+theorem futures_fresh_per_search :
+    futuresFreshPerSearch = true ∧ hyperClassMutables = [] ∧ futuresForeignUses = [] := by decide
 
 end Cotengra.C16
